@@ -252,6 +252,8 @@ def run(repo, rep):
     from . import c09
 
     rep.run_borrowed(c09, {"C09-c": "C06-k"}, repo)
+    rep.clause("C06-o", "the pooling (scale, shift) pair fits the 32 + 6 bits of OFM_SCALE for every window size and scale ratio: the emitter masks a wider value silently [rule shared with C09-h]")
+    rep.run_borrowed(c09, {"C09-h": "C06-o"}, repo)
     rep.clause("C06-m", "the SHRAM layout emitted for an operation (try_block_config) is derived like the layout the block config was selected with (find_block_config) [rule shared with C15-d]")
     from . import c15
 
